@@ -166,7 +166,10 @@ class Run:
             path = os.path.join(REPLAY_DIR, "%s-%s.json" % (self.prop, h))
             with open(path, "w") as fh:
                 json.dump(rec, fh, indent=1, sort_keys=True, default=str)
-            print("VIOLATION property=%s replay=%s" % (self.prop, path))
+            if self.prop.startswith("X"):      # extended-coverage checks are not among the listed properties
+                print("EXTRA-MISMATCH check=%s replay=%s" % (self.prop, path))
+            else:
+                print("VIOLATION property=%s replay=%s" % (self.prop, path))
             print("  component=%s clause=%s config=%s cases=%d\n  witness=%s\n  %s" % (
                 v.component, v.clause, json.dumps(v.config, sort_keys=True), len(vs),
                 json.dumps(v.witness, sort_keys=True, default=str)[:400], v.detail[:400]))
@@ -196,11 +199,12 @@ class Run:
               "violations": nviol}
         if self.only:
             return  # a replay never rewrites the evidence of the registered check
-        os.makedirs(EVIDENCE_DIR, exist_ok=True)
-        tmp = os.path.join(EVIDENCE_DIR, self.prop + ".json.tmp")
+        edir = EVIDENCE_DIR if not self.prop.startswith("X") else os.path.join(ROOT, "evidence_extra")
+        os.makedirs(edir, exist_ok=True)
+        tmp = os.path.join(edir, self.prop + ".json.tmp")
         with open(tmp, "w") as fh:
             json.dump(ev, fh, indent=1, default=str)
-        os.replace(tmp, os.path.join(EVIDENCE_DIR, self.prop + ".json"))
+        os.replace(tmp, os.path.join(edir, self.prop + ".json"))
 
 
 def git_head(path):
